@@ -287,7 +287,103 @@ fn conn_limits() -> Vec<u64> {
     v
 }
 
+// ---------------------------------------------------------------------------------------------
+// end-of-request sequence observed on the transport through Request::close
+
+#[derive(Clone, Debug, Serialize, Deserialize)]
+struct CloseCase {
+    role: u16,
+    id: u16,
+    /// 0 Complete(code), 1 Overloaded, 2 UnknownRole
+    variant: u8,
+    code: u32,
+    keep: bool,
+    /// bytes accepted per write call
+    accept: u16,
+    vectored: bool,
+}
+
+fn test_close(c: &CloseCase) -> TestResult {
+    use crate::aio::*;
+    use std::future::Future;
+    use std::sync::{Arc, Mutex};
+    let cfg = crate::syncdrv::config(256, 1);
+    let sp = crate::props::c10::stream_parser_for(&cfg, c.id, c.role, c.keep as u8)?;
+    // a compliant client ends every input stream of the role
+    let input: Vec<u8> = wire::encode_all(&wire::role_streams(c.role).iter().map(|&s| wire::Rec::new(s, c.id, vec![], 0)).collect::<Vec<_>>());
+    let world = Arc::new(Mutex::new(World::new(input.clone(), vec![(input.len(), Cond::Now)], vec![], vec![WStep::Accept(c.accept.max(1))], c.vectored, IoFault::None)));
+    world.lock().unwrap().close_at_end = false;
+    let req = fastcgi_server::async_io::Request::new(sp, MockReader(world.clone()), MockWriter(world.clone()));
+    let (status, proto, app) = match c.variant % 3 {
+        0 => (ExitStatus::Complete(c.code), wire::ST_COMPLETE, c.code),
+        1 => (ExitStatus::Overloaded, wire::ST_OVERLOADED, 0),
+        _ => (ExitStatus::UnknownRole, wire::ST_UNKNOWN_ROLE, 0),
+    };
+    let mut fut = Box::pin(req.close(status));
+    let flag = FlagWaker::new(true);
+    let waker = std::task::Waker::from(flag.clone());
+    let mut cx = std::task::Context::from_waker(&waker);
+    let mut polls = 0;
+    let res = loop {
+        polls += 1;
+        vensure!(polls < 10_000, "conn-spin", "close() did not finish");
+        vensure!(flag.take(), "conn-hang", "close() is pending without a wake-up");
+        if let std::task::Poll::Ready(r) = fut.as_mut().poll(&mut cx) {
+            break r;
+        }
+    };
+    match (&res, c.keep) {
+        (Ok(_), true) => {},
+        (Err(e), false) if e.kind() == std::io::ErrorKind::ConnectionReset => {},
+        (r, k) => vfail!("c17-close-result", "close() with KeepConn={k} returned {:?}", r.as_ref().map(|_| "Ok").map_err(|e| e.kind())),
+    }
+    drop(res);
+    drop(fut);
+    let w = world.lock().unwrap();
+    let (recs, used) = wire::decode_log(&w.log).map_err(|e| Fail::new("c17-epilogue", e))?;
+    vensure!(used == w.log.len(), "c17-epilogue", "end-of-request sequence ends with an incomplete record");
+    let replies: Vec<wire::Reply> = recs.iter().map(wire::classify_out).collect::<Result<_, _>>().map_err(|e| Fail::new("c17-epilogue", e))?;
+    vensure!(replies.len() == 3, "c17-epilogue", "end-of-request sequence for role {} has {} records: {replies:?}", c.role, replies.len());
+    let mut ends: Vec<u8> = Vec::new();
+    for r in &replies[..2] {
+        match r {
+            wire::Reply::Stream { ty, id, payload } if payload.is_empty() && *id == c.id => ends.push(*ty),
+            other => vfail!("c17-epilogue", "expected an empty output-stream record with id {}, found {other:?}", c.id),
+        }
+    }
+    ends.sort_unstable();
+    vensure!(ends == vec![wire::T_STDOUT, wire::T_STDERR], "c17-epilogue", "the two stream-end records have types {ends:?}");
+    vensure!(replies[2] == wire::Reply::End { id: c.id, proto, app }, "c17-epilogue", "final record {:?}, expected EndRequest{{id {}, protocol {proto}, app {app:#x}}}", replies[2], c.id);
+    Ok(Outcome::new(true).label_if(c.keep, "keep-conn"))
+}
+
 pub fn property() -> Property {
+    let close: Box<dyn Sub> = Box::new(EnumSub::<CloseCase> {
+        name: "epilogue_via_close",
+        rule: "Request::close on the async test bed for 3 roles x 9 request ids x {Complete(0,1,ABRT,u32::MAX), Overloaded, UnknownRole} x KeepConn on/off x transports accepting 1 / 7 / all bytes per call, vectored or not: the byte log is exactly one empty Stdout and one empty Stderr record (either order) followed by the EndRequest with the documented status, all carrying the request's id; distinct by construction",
+        exhaustive: Box::new(|_| true),
+        guard_each: true,
+        test: Box::new(test_close),
+        body: Box::new(|_t, shard, n, sink| {
+            let mut k = 0usize;
+            for role in 1..=3u16 {
+                for id in [1u16, 2, 0x00ff, 0x0100, 0x0101, 0x7fff, 0x8000, 0xfffe, 0xffff] {
+                    for (variant, code) in [(0u8, 0u32), (0, 1), (0, wire::ABRT), (0, u32::MAX), (1, 0), (2, 0)] {
+                        for keep in [false, true] {
+                            for accept in [1u16, 7, u16::MAX] {
+                                for vectored in [false, true] {
+                                    k += 1;
+                                    if k % n == shard && !sink.check(CloseCase { role, id, variant, code, keep, accept, vectored }) {
+                                        return;
+                                    }
+                                }
+                            }
+                        }
+                    }
+                }
+            }
+        }),
+    });
     let tables: Box<dyn Sub> = Box::new(EnumSub::<Case> {
         name: "tables",
         rule: "enumerations, distinct by construction: all 2^16 (version,type) byte pairs x 6 settings of the other header bytes; every request id / content length / padding / reserved byte value with the rest sampled; all 11 types x 2^16 ids as header values; all 65536 content lengths for set_lengths; all 256 padding_bytes; all 2^16 roles x 256 flag bytes (BeginRequest bodies, reserved bytes non-zero); all 256 protocol-status bytes x 40 application statuses; whole-record encoders; all 256 UnknownType/Version/RecordType bytes; every ExitStatus variant x sampled codes; parse_name on known and near-miss names",
@@ -421,6 +517,6 @@ pub fn property() -> Property {
             "oracle = the FastCGI specification's record layouts re-implemented independently in harness/src/wire.rs and in the expected-byte arrays of this module",
             "the end-of-request sequence is observed on the transport byte log through Request::close (sub-check epilogue_via_close)",
         ],
-        subs: vec![tables, vars],
+        subs: vec![tables, vars, close],
     }
 }
